@@ -183,7 +183,8 @@ def gen_structured(rng, tier, ctx):
     """case = (methods, argument tuples per method); several methods share one class and one compiler run"""
     cases = []
     for b in range(30 if tier == "thorough" else 4):
-        methods = [J.gen_method(rng, i) for i in range(4)] + [J.gen_pattern(rng, 4 + i) for i in range(2)] + [J.gen_const_fold(rng, 6 + i) for i in range(6)] + [J.gen_cast_chain(rng, 12 + i) for i in range(9)] + [J.gen_switch_shared(rng, 21 + i) for i in range(4)]
+        methods = [J.gen_method(rng, i) for i in range(4)] + [J.gen_pattern(rng, 4 + i) for i in range(2)] + [J.gen_const_fold(rng, 6 + i) for i in range(6)] + [J.gen_cast_chain(rng, 12 + i) for i in range(9)] + [J.gen_switch_shared(rng, 21 + i) for i in range(4)] + \
+            [J.gen_shared_const(rng, 25 + i) for i in range(5)] + [J.gen_dowhile(rng, 30 + i) for i in range(4)]
         argsets = []
         for m in methods:
             argsets.append([tuple(rng.choice(I_EDGE) if t == "I" else rng.choice(J_EDGE) for t in m["params"]) for _ in range(8)])
